@@ -70,6 +70,28 @@ type Model struct {
 	Inputs  []IO    `json:"inputs"`
 	Outputs []IO    `json:"outputs"`
 	Inits   []Init  `json:"inits"`
+	// Optional ONNX fields an inference-only runtime may ignore (the pinned tree does) or start to honour:
+	// Training: for each named initializer a training_info entry whose algorithm computes <name>+1 and whose
+	// update_binding binds the result back to <name>. Quant: quantization_annotation entries. Functions: model-local
+	// functions (name -> body given as a chain of node operator types / callee names).
+	Training  []string   `json:"training,omitempty"`
+	Quant     []Quant    `json:"quant,omitempty"`
+	Functions []Function `json:"functions,omitempty"`
+}
+
+// Quant annotates tensor Tensor with a scale and a zero-point tensor (names of initializers or graph inputs).
+type Quant struct {
+	Tensor    string `json:"tensor"`
+	Scale     string `json:"scale,omitempty"`
+	ZeroPoint string `json:"zero_point,omitempty"`
+}
+
+// Function is a model-local function of one input and one output whose body applies Body[0], Body[1], ... in turn
+// (each an operator type or the name of another function).
+type Function struct {
+	Name   string   `json:"name"`
+	Domain string   `json:"domain,omitempty"`
+	Body   []string `json:"body"`
 }
 
 // TensorProto encodes a value either in the typed repeated field ONNX prescribes for its
@@ -224,7 +246,39 @@ func (m *Model) Proto() *onnx.ModelProto {
 	for _, io := range m.Outputs {
 		g.Output = append(g.Output, valueInfo(io))
 	}
+	for _, q := range m.Quant {
+		ta := &onnx.TensorAnnotation{TensorName: q.Tensor}
+		if q.Scale != "" {
+			ta.QuantParameterTensorNames = append(ta.QuantParameterTensorNames, &onnx.StringStringEntryProto{Key: "SCALE_TENSOR", Value: q.Scale})
+		}
+		if q.ZeroPoint != "" {
+			ta.QuantParameterTensorNames = append(ta.QuantParameterTensorNames, &onnx.StringStringEntryProto{Key: "ZERO_POINT_TENSOR", Value: q.ZeroPoint})
+		}
+		g.QuantizationAnnotation = append(g.QuantizationAnnotation, ta)
+	}
 	mp := &onnx.ModelProto{IrVersion: 7, ProducerName: "verifsim", Graph: g}
+	for _, w := range m.Training {
+		one := &onnx.TensorProto{Name: w + "_ti_one", DataType: int32(val.Float32), Dims: []int64{1}, FloatData: []float32{1}}
+		alg := &onnx.GraphProto{Name: "step", Initializer: []*onnx.TensorProto{one},
+			Node:   []*onnx.NodeProto{{OpType: "Add", Name: "ti_add", Input: []string{w, one.Name}, Output: []string{w + "_ti_new"}}},
+			Output: []*onnx.ValueInfoProto{{Name: w + "_ti_new"}}}
+		mp.TrainingInfo = append(mp.TrainingInfo, &onnx.TrainingInfoProto{Algorithm: alg,
+			UpdateBinding: []*onnx.StringStringEntryProto{{Key: w, Value: w + "_ti_new"}}})
+	}
+	for _, f := range m.Functions {
+		fp := &onnx.FunctionProto{Name: f.Name, Domain: f.Domain, Input: []string{"fx"}, Output: []string{"fy"},
+			OpsetImport: []*onnx.OperatorSetIdProto{{Version: 13}}}
+		cur := "fx"
+		for i, op := range f.Body {
+			out := fmt.Sprintf("f%d", i)
+			if i == len(f.Body)-1 {
+				out = "fy"
+			}
+			fp.Node = append(fp.Node, &onnx.NodeProto{OpType: op, Domain: f.Domain, Input: []string{cur}, Output: []string{out}})
+			cur = out
+		}
+		mp.Functions = append(mp.Functions, fp)
+	}
 	mp.OpsetImport = append(mp.OpsetImport, &onnx.OperatorSetIdProto{Domain: "", Version: m.Opset})
 	for _, v := range m.Opsets {
 		mp.OpsetImport = append(mp.OpsetImport, &onnx.OperatorSetIdProto{Domain: "x", Version: v})
